@@ -72,7 +72,20 @@ func (c xCtx) toContext() carapace.Context {
 }
 
 type builder struct {
-	table []carapace.Action // shared sub-expressions (history op)
+	table  []carapace.Action // shared sub-expressions (history op)
+	shared *cobra.Command    // one command several Batch members register completions for (regflag / regprobe)
+	sharedG *carapace.Carapace
+}
+
+func (b *builder) sharedCmd() *cobra.Command {
+	if b.shared == nil {
+		b.shared = &cobra.Command{Use: "shared", Run: func(*cobra.Command, []string) {}}
+		for i := 0; i < 24; i++ {
+			b.shared.Flags().String("f"+itoa(i), "", "")
+		}
+		b.sharedG = carapace.Gen(b.shared)
+	}
+	return b.shared
 }
 
 func (b *builder) build(x *xExpr) carapace.Action {
@@ -106,6 +119,31 @@ func (b *builder) build(x *xExpr) carapace.Action {
 			carapace.Gen(cmd).FlagCompletion(carapace.ActionMap{"flag": carapace.ActionValues("f1")})
 			carapace.Gen(cmd).PositionalCompletion(carapace.ActionValues("p1"))
 			return carapace.ActionValues("gen")
+		})
+	case "regflag":
+		// a member that registers the completion of flag f<n> of the shared command while it runs
+		b.sharedCmd()
+		n := x.N
+		return carapace.ActionCallback(func(c carapace.Context) carapace.Action {
+			b.sharedG.FlagCompletion(carapace.ActionMap{"f" + itoa(n): carapace.ActionValues("v" + itoa(n))})
+			return carapace.ActionValues("reg" + itoa(n))
+		})
+	case "regprobe":
+		// which of the first n flags of the shared command have their completion registered
+		cmd := b.sharedCmd()
+		n := x.N
+		return carapace.ActionCallback(func(c carapace.Context) carapace.Action {
+			found := []string{}
+			for i := 0; i < n; i++ {
+				a, ctx := carapace.VerifTraverse(cmd, []string{"--f" + itoa(i), ""})
+				_, vals := carapace.VerifInvoked(a.Invoke(ctx))
+				for _, v := range vals {
+					if v.Value == "v"+itoa(i) {
+						found = append(found, v.Value)
+					}
+				}
+			}
+			return carapace.ActionValues(found...)
 		})
 	case "echo":
 		return carapace.ActionCallback(func(c carapace.Context) carapace.Action {
@@ -202,6 +240,11 @@ func (b *builder) build(x *xExpr) carapace.Action {
 		return b.table[x.ID]
 	case "stored":
 		return b.build(x.E).Invoke(x.Ctx.toContext()).ToA()
+	case "import":
+		// the exported document of an invocation, handed to ActionImport (one Action value, invoked many times)
+		doc, err := carapace.VerifExportJSON(b.build(x.E).Invoke(x.Ctx.toContext()))
+		must(err)
+		return carapace.ActionImport(doc)
 	}
 	panic("unknown expr kind " + x.K)
 }
@@ -620,6 +663,15 @@ func genHistory(r *rng, tier string) interface{} {
 		if r.chance(5) {
 			x = &xExpr{K: "message", M: "%v", Margs: []string{pick(r, []string{"50%d", "plain", "100%"})}}
 		}
+		if r.chance(7) {
+			c0 := genCtx(r)
+			c0.CI = false
+			imp := &xExpr{K: "import", E: genLeaf(r), Ctx: &c0}
+			x = &xExpr{K: pick(r, []string{"pfx", "sfx", "style", "tag", "suppress"}), S: "s", Xs: []string{"a"}, E: imp}
+			if r.chance(30) {
+				x = imp
+			}
+		}
 		in.Table = append(in.Table, x)
 	}
 	ctxs := []xCtx{genCtx(r), genCtx(r)}
@@ -728,6 +780,38 @@ func genRepeat(r *rng, tier string) interface{} {
 // ---- op "batchrace": Batch scenarios for the race detector (C09); run on the -race build
 func genBatchRace(r *rng, tier string) interface{} {
 	in := historyIn{}
+	if r.chance(12) {
+		// registrations for ONE command from many members at once: none may be lost
+		n := 8 + r.intn(16)
+		members := []*xExpr{}
+		for i := 0; i < n; i++ {
+			members = append(members, &xExpr{K: "regflag", N: i})
+		}
+		in.Table = []*xExpr{{K: "batch", Es: members}, {K: "regprobe", N: n}}
+		c := xCtx{}
+		in.Steps = []historyStep{{E: 0, Ctx: c}, {E: 1, Ctx: c}}
+		return in
+	}
+	if r.chance(12) {
+		// an invoked action with spare capacity in its candidate slice (the result of a filter), captured as the
+		// FIRST member of several nested batches that run side by side: merging must not write into it
+		c0 := xCtx{}
+		shared := &xExpr{K: "stored", Ctx: &c0, E: &xExpr{K: "filter", Xs: []string{"b", "d"}, E: &xExpr{K: "plain", Ps: []string{"a", "b", "c", "d", "e"}}}}
+		if r.chance(50) {
+			shared = &xExpr{K: "stored", Ctx: &c0, E: &xExpr{K: "retain", Xs: []string{"a"}, E: &xExpr{K: "plain", Ps: []string{"a", "b", "c", "d"}}}}
+		}
+		in.Table = []*xExpr{shared}
+		outer := []*xExpr{}
+		n := 4 + r.intn(12)
+		for i := 0; i < n; i++ {
+			outer = append(outer, &xExpr{K: "pfx", S: itoa(i) + ":", E: &xExpr{K: "batch", Es: []*xExpr{{K: "ref", ID: 0}, {K: "plain", Ps: []string{"own-" + itoa(i)}}}}})
+		}
+		in.Table = append(in.Table, &xExpr{K: "batch", Es: outer})
+		for i := 0; i < 3; i++ {
+			in.Steps = append(in.Steps, historyStep{E: 1, Ctx: c0})
+		}
+		return in
+	}
 	leaf := func() *xExpr { return genLeaf(r) }
 	shared := leaf()
 	switch r.intn(4) {
